@@ -35,6 +35,10 @@ TComputedFromThem == Acc => R.reco
 \* and lies within half the reported round-trip delay of the true offset (ns)
 THalfRTT == Acc => 2 * Abs(R.err) <= R.rtd + 8
 
+\* the client never panics on what a conformant server and this network send
+\* (its only panic site fires when t3 < t0, impossible for timestamps of one exchange)
+TNoPanic == (l > 0 /\ R.ev \in {"accept", "recv"}) => R.got # "panic"
+
 \* ----------------------------------------------------------------- strict
 \* the client did with each delivered datagram what NtpExchange.tla predicts
 SOutcome == (l > 0 /\ R.ev \in {"accept", "recv"} /\ R.want # "" /\ R.got # "ignored") =>
